@@ -81,6 +81,7 @@ def replay(case) -> dict:
     gap = max(case["gap"]) / 100.0
     desc = dict(model=cfg["model"], mask=cfg["mask"], cutoff=cfg["cutoff"], tilt=cfg["tilt"], bg=cfg.get("bg", 0), box=list(shape), lim=cfg["lim"], d=cfg["d"],
                 at_edge=any(abs(a) == b for a, b in zip(cfg["d"], cfg["lim"])), reach_gap=gap, gap_exceeds_tol=gap * 100 > case["tol"])
+    desc["case_key"] = f"{cfg['model']}|{cfg['mask']}|{cfg['cutoff']}|{cfg['tilt']}|{list(shape)}|{cfg['lim']}|{cfg['d']}"
     fails = []
     res = engine.api(model.align, sub, lim, quat, np.zeros(3))
     tol = case["tol"] / 100.0
@@ -107,6 +108,13 @@ def run(rep: engine.Report, tier: str, seed: int):
         raise engine.MachineryError("MC_C04 emitted nothing")
     budget = 2000 if tier == "quick" else len(cases)
     sel = engine.stratified_sample(cases, _stratum, budget, seed)
+    # the configurations of the known finding are always replayed, so that the finding is re-observed (or seen to be gone) on every run
+    keys = {k for f in engine.load_findings(PROP) if f.get("status") == "known" for k in (f.get("matcher", {}).get("case_key", {}) or {}).get("in", [])}
+    have = {json.dumps(c["cfg"], sort_keys=True) for c in sel}
+    for c in cases:
+        g = c["cfg"]
+        if f"{g['model']}|{g['mask']}|{g['cutoff']}|{g['tilt']}|{list(g['box'])}|{g['lim']}|{g['d']}" in keys and json.dumps(g, sort_keys=True) not in have:
+            sel.append(c)
     rep.exhaustive = len(sel) == len(cases)
     results = engine.parallel_replay("harness.props.c04", "replay", sel)
     engine.collect(rep, sel, results, key=lambda c: c["cfg"])
